@@ -197,7 +197,7 @@ func c17Chains() []c17Chain {
 			sb := sb
 			out = append(out, c17Chain{"batch/" + era.Name + "/" + sb.name, era, func(b *drive.Builder) {
 				FundStd(b)
-				b.Add(drive.BlockSpec{Rates: R1(), OPRPayTo: kit.AddrStr(KM), TX: []fake.Entry{b.Tx(KA, sb.txs...)}})
+				b.Add(drive.BlockSpec{Rates: R1(), OPRPayTo: kit.AddrStr(KM), TX: []fake.Entry{sb.entry(b)}})
 				b.Add(drive.BlockSpec{Rates: R2(), OPRPayTo: kit.AddrStr(KM)})
 				b.Add(drive.BlockSpec{Rates: R1(), OPRPayTo: kit.AddrStr(KM)})
 			}})
